@@ -619,6 +619,9 @@ func (t *tr) dispatch() (disp []string, extra []string, unknownRejects bool) {
 
 var dumpBodies bool
 
+// Lean namespace of the emitted modules: Bng.Gen (regenerated on every run) or Bng.GenRef (committed reference)
+var namespace = "Bng.Gen"
+
 // bodies that Bng/Model/Ncp.lean models by hand (step0: Code-Reject, Protocol-Reject, Echo, the Send* API,
 // SetPeerIP): any textual change must be re-read against the model.
 var pins = map[string]map[string]string{
@@ -916,8 +919,13 @@ func translate(repo string, m machine) (lean string, err error) {
 	t.sweep(repo, f)
 
 	var b strings.Builder
-	fmt.Fprintf(&b, "-- GENERATED by /verif/harness/cmd/extractfsm from %s — regenerated on every run, do not edit, do not commit.\n", t.path)
-	fmt.Fprintf(&b, "import Bng.Model.Ncp\nnamespace Bng.Gen.%s\nopen Bng.Ncp\n\n", m.module)
+	if namespace == "Bng.Gen" {
+		fmt.Fprintf(&b, "-- GENERATED by /verif/harness/cmd/extractfsm from %s — regenerated on every run, do not edit, do not commit.\n", t.path)
+	} else {
+		fmt.Fprintf(&b, "-- REFERENCE tables: generated by /verif/tools/refresh-genref.sh (extractfsm -ns %s) from pkg/pppoe/%s; committed.\n"+
+			"-- Used only by bngdrv-ncp-ref, the search fallback of checks/c11.py when the translator refuses the source; no theorem refers to them.\n", namespace, m.file)
+	}
+	fmt.Fprintf(&b, "import Bng.Model.Ncp\nnamespace %s.%s\nopen Bng.Ncp\n\n", namespace, m.module)
 	fmt.Fprintf(&b, "/-- the `switch %s.state` bodies of the event methods of %s -/\n", "m", m.typ)
 	fmt.Fprintf(&b, "def table : Handler → St → Cond → List Action\n")
 	var preLines []string
@@ -945,13 +953,14 @@ func translate(repo string, m machine) (lean string, err error) {
 	sort.Strings(extra)
 	fmt.Fprintf(&b, "def tables : Tables :=\n  { table := table, pre := pre, effs := effs,\n    dispatch := [%s],\n    extra := [%s],\n    unknownRejects := %v }\n\n",
 		strings.Join(disp, ", "), strings.Join(extra, ", "), ur)
-	fmt.Fprintf(&b, "end Bng.Gen.%s\n", m.module)
+	fmt.Fprintf(&b, "end %s.%s\n", namespace, m.module)
 	return b.String(), nil
 }
 
 func main() {
 	repo := flag.String("repo", "/repo", "bng working tree")
 	out := flag.String("out", "/verif/lean/Bng/Gen", "output directory")
+	flag.StringVar(&namespace, "ns", "Bng.Gen", "Lean namespace prefix of the emitted modules (Bng.GenRef for the committed reference tables)")
 	flag.BoolVar(&dumpBodies, "dump", false, "print the normalised bodies of all methods (for maintaining the pins)")
 	flag.Parse()
 	rc := 0
